@@ -421,6 +421,21 @@ def shard_local(cfg):
     return res
 
 
+def shard_implicit_local(arg):
+    """with the directive, the implicit classes advance EVERY UNKNOWN OF A CELL by that cell's own step: one and two steps with the per-cell array
+    against the theta (BDF2) system with D^-1 = diag(1/dt_cell) repeated over the equations of the cell, linearised with a reference Jacobian of
+    the real operator (the machinery of C06)"""
+    from . import c06
+    mname, spec, flux, rname = arg
+    res = core.Res()
+    for bc in ("per", "wall"):
+        for perm in list(itertools.permutations(range(4)))[::3]:
+            res.nontrivial += 1
+            for s, w in c06.check_nonlinear_steps(mname, spec, flux, rname, bc, perm, res, modes=("array",)):
+                res.violation(s.replace("C06/nonlinear/", "C18/implicit-local-step/"), w, {"kind": "impl", "arg": [mname, list(spec), flux, rname], "bc": bc, "perm": list(perm)})
+    return res
+
+
 def shard_driver(block):
     res = core.Res()
     for cfg in block:
@@ -467,6 +482,8 @@ def run(ctx):
                     block.append((iname, kind, par, idx, wv))
             drv.append(block if th else block[::3])
     ctx.pmap("driver", shard_driver, drv)
+    ctx.pmap("implicit-classes-with-local-steps", shard_implicit_local, [("euler1d", ("euler1d", 1.4), "hllc", "extrapol1"), ("euler1d", ("euler1d", 1.4), "hlle", "muscl:vanleer"),
+                                                                         ("shallowwater", ("shallowwater", 9.81), "hll", "extrapol1"), ("burgers", ("burgers",), None, "extrapol2")])
 
 
 def replay(case):
@@ -474,6 +491,11 @@ def replay(case):
     if k == "point":
         cfg = tuple(case["cfg"])
         return [(s, w) for s, w, i in eval_pointwise(cfg) if i == case["index"]]
+    if k == "impl":
+        from . import c06
+        a = case["arg"]
+        v = c06.check_nonlinear_steps(a[0], tuple(a[1]), a[2], a[3], case["bc"], tuple(case["perm"]), None, modes=("array",))
+        return [(s.replace("C06/nonlinear/", "C18/implicit-local-step/"), w) for s, w in v]
     if k == "int":
         return [(s, w) for s, w, i in eval_int(case["cfg"][0], case["cfg"][1])]
     if k == "local":
